@@ -123,8 +123,13 @@ def _meta(ck: Checker) -> None:
     dpar = fd.pos_params[-1]
     okf, why = False, "no field-by-field copy found"
     cands = {x.targets[0].id for x in walk_own(fd.node) if isinstance(x, ast.Assign) and isinstance(x.targets[0], ast.Name)} | {x.target.id for x in walk_own(fd.node) if isinstance(x, ast.AnnAssign) and isinstance(x.target, ast.Name)}
-    for nm in sorted(cands):
-        for b in collection_builds(gfd, fd.node, nm):
+    from ..an import comp_build
+
+    builds = [b for nm in sorted(cands) for b in collection_builds(gfd, fd.node, nm)]
+    # a comprehension handed straight to the constructor: cls(**{f: d[f] for f in cls.fields if f in d})
+    builds += [b for x in walk_own(fd.node) if isinstance(x, ast.DictComp) for b in [comp_build(x, None)] if b is not None]
+    for _once in (1,):
+        for b in builds:
             if b.key is None or norm(b.src) not in ("cls.fields", "Meta.fields"):
                 continue
             fv = b.target_names()[0] if b.target_names() else None
